@@ -6,6 +6,7 @@
 #pragma once
 #include <ygm/detail/meta/functional.hpp>
 #include <ygm/detail/ygm_cereal_archive.hpp>
+#include <ygm/detail/verif_hooks.hpp>
 
 namespace ygm {
 
@@ -141,6 +142,7 @@ inline void comm::async(int dest, AsyncFunction fn, const SendArgs &...args) {
 
   check_if_production_halt_required();
   m_send_count++;
+  YGM_VERIF_HOOK("as+", dest, m_send_buffer_bytes, m_pending_isend_bytes);
 
   //
   //
@@ -176,11 +178,13 @@ inline void comm::async(int dest, AsyncFunction fn, const SendArgs &...args) {
     std::memcpy(&*iter, &bytes, sizeof(header_t::dest));
   }
 
+  YGM_VERIF_HOOK("pk", next_dest, header_bytes + bytes, m_send_buffer_bytes);
   //
   // Check if send buffer capacity has been exceeded
   if (!m_in_process_receive_queue) {
     flush_to_capacity();
   }
+  YGM_VERIF_HOOK("as-", dest, m_send_buffer_bytes, m_pending_isend_bytes);
 }
 
 template <typename AsyncFunction, typename... SendArgs>
@@ -192,6 +196,7 @@ inline void comm::async_bcast(AsyncFunction fn, const SendArgs &...args) {
       "is_standard_layout.");
   check_if_production_halt_required();
 
+  YGM_VERIF_HOOK("bc+", 0, m_send_buffer_bytes, m_pending_isend_bytes);
   pack_lambda_broadcast(fn, std::forward<const SendArgs>(args)...);
 
   //
@@ -199,6 +204,7 @@ inline void comm::async_bcast(AsyncFunction fn, const SendArgs &...args) {
   if (!m_in_process_receive_queue) {
     flush_to_capacity();
   }
+  YGM_VERIF_HOOK("bc-", 0, m_send_buffer_bytes, m_pending_isend_bytes);
 }
 
 template <typename AsyncFunction, typename... SendArgs>
@@ -231,6 +237,7 @@ inline MPI_Comm comm::get_mpi_comm() const { return m_comm_other; }
  *
  */
 inline void comm::barrier() {
+  YGM_VERIF_HOOK("bar+", m_recv_count, m_send_count, 0);
   flush_all_local_and_process_incoming();
   std::pair<uint64_t, uint64_t> previous_counts{1, 2};
   std::pair<uint64_t, uint64_t> current_counts{3, 4};
@@ -244,6 +251,7 @@ inline void comm::barrier() {
   }
   ASSERT_RELEASE(m_pre_barrier_callbacks.empty());
   ASSERT_RELEASE(m_send_dest_queue.empty());
+  YGM_VERIF_HOOK("bar-", m_recv_count, m_send_count, 0);
 }
 
 /**
@@ -263,6 +271,7 @@ inline ygm_ptr<T> comm::make_ygm_ptr(T &t) {
 inline void comm::register_pre_barrier_callback(
     const std::function<void()> &fn) {
   m_pre_barrier_callbacks.push_back(fn);
+  YGM_VERIF_HOOK("rcb", m_pre_barrier_callbacks.size(), 0, 0);
 }
 
 template <typename T>
@@ -462,6 +471,7 @@ inline size_t comm::pack_header(std::vector<std::byte> &packed, const int dest,
 inline std::pair<uint64_t, uint64_t> comm::barrier_reduce_counts() {
   uint64_t local_counts[2]  = {m_recv_count, m_send_count};
   uint64_t global_counts[2] = {0, 0};
+  YGM_VERIF_HOOK("brc+", m_recv_count, m_send_count, m_send_buffer_bytes + m_pending_isend_bytes);
 
   ASSERT_RELEASE(m_pending_isend_bytes == 0);
   ASSERT_RELEASE(m_send_buffer_bytes == 0);
@@ -499,6 +509,7 @@ inline std::pair<uint64_t, uint64_t> comm::barrier_reduce_counts() {
       }
     }
   }
+  YGM_VERIF_HOOK("brc-", global_counts[0], global_counts[1], 0);
   return {global_counts[0], global_counts[1]};
 }
 
@@ -531,6 +542,7 @@ inline void comm::flush_send_buffer(int dest) {
     m_pending_isend_bytes += request.buffer->size();
     m_send_buffer_bytes -= request.buffer->size();
     m_send_queue.push_back(request);
+    YGM_VERIF_HOOK("fsb", dest, m_send_queue.back().buffer->size(), m_send_buffer_bytes);
     if (!m_in_process_receive_queue) {
       process_receive_queue();
     }
@@ -549,6 +561,7 @@ inline void comm::check_if_production_halt_required() {
  * one buffer.
  */
 inline void comm::local_progress() {
+  YGM_VERIF_HOOK("lp+", m_in_process_receive_queue, m_send_buffer_bytes, m_pending_isend_bytes);
   if (not m_in_process_receive_queue) {
     process_receive_queue();
   }
@@ -557,6 +570,7 @@ inline void comm::local_progress() {
     m_send_dest_queue.pop_front();
     flush_send_buffer(dest);
   }
+  YGM_VERIF_HOOK("lp-", m_in_process_receive_queue, m_send_buffer_bytes, m_pending_isend_bytes);
 }
 
 /**
@@ -577,6 +591,7 @@ inline void comm::local_wait_until(Function fn) {
  * Notifies any registered barrier watchers.
  */
 inline void comm::flush_all_local_and_process_incoming() {
+  YGM_VERIF_HOOK("fl+", m_send_buffer_bytes, m_send_queue.size(), m_pre_barrier_callbacks.size());
   // Keep flushing until all local work is complete
   bool did_something = true;
   while (did_something) {
@@ -587,7 +602,9 @@ inline void comm::flush_all_local_and_process_incoming() {
       did_something            = true;
       std::function<void()> fn = m_pre_barrier_callbacks.front();
       m_pre_barrier_callbacks.pop_front();
+      YGM_VERIF_HOOK("cb+", m_pre_barrier_callbacks.size(), 0, 0);
       fn();
+      YGM_VERIF_HOOK("cb-", m_pre_barrier_callbacks.size(), 0, 0);
     }
 
     //
@@ -606,6 +623,7 @@ inline void comm::flush_all_local_and_process_incoming() {
       did_something |= process_receive_queue();
     }
   }
+  YGM_VERIF_HOOK("fl-", m_send_buffer_bytes, m_send_queue.size(), m_pre_barrier_callbacks.size());
 }
 
 /**
@@ -855,6 +873,7 @@ inline void comm::queue_message_bytes(const std::vector<std::byte> &packed,
   std::memcpy(send_buff.data() + size_before, packed.data(), packed.size());
 
   m_send_buffer_bytes += packed.size();
+  YGM_VERIF_HOOK("qm", dest, send_buff.size() - size_before + (config.routing != detail::routing_type::NONE ? sizeof(header_t) : 0), m_send_buffer_bytes);
 }
 
 inline void comm::handle_next_receive(MPI_Status                   status,
@@ -862,6 +881,7 @@ inline void comm::handle_next_receive(MPI_Status                   status,
   int count{0};
   ASSERT_MPI(MPI_Get_count(&status, MPI_BYTE, &count));
   stats.irecv(status.MPI_SOURCE, count);
+  YGM_VERIF_HOOK("hnr+", count, status.MPI_SOURCE, m_in_process_receive_queue);
   cereal::YGMInputArchive iarchive(buffer.get(), count);
   while (!iarchive.empty()) {
     if (config.routing != detail::routing_type::NONE) {
@@ -870,8 +890,10 @@ inline void comm::handle_next_receive(MPI_Status                   status,
       if (h.dest == m_layout.rank() || (h.dest == -1 && h.message_size == 0)) {
         uint16_t lid;
         iarchive.loadBinary(&lid, sizeof(lid));
+        YGM_VERIF_HOOK("ex+", m_recv_count, m_in_process_receive_queue, m_enable_interrupts);
         m_lambda_map.execute(lid, this, &iarchive);
         m_recv_count++;
+        YGM_VERIF_HOOK("ex-", m_recv_count, m_in_process_receive_queue, m_enable_interrupts);
         stats.rpc_execute();
       } else {
         int next_dest = m_router.next_hop(h.dest);
@@ -890,17 +912,21 @@ inline void comm::handle_next_receive(MPI_Status                   status,
                             h.message_size);
 
         m_send_buffer_bytes += h.message_size;
+        YGM_VERIF_HOOK("fw", h.dest, next_dest, header_bytes + h.message_size);
 
         flush_to_capacity();
       }
     } else {
       uint16_t lid;
       iarchive.loadBinary(&lid, sizeof(lid));
+      YGM_VERIF_HOOK("ex+", m_recv_count, m_in_process_receive_queue, m_enable_interrupts);
       m_lambda_map.execute(lid, this, &iarchive);
       m_recv_count++;
+      YGM_VERIF_HOOK("ex-", m_recv_count, m_in_process_receive_queue, m_enable_interrupts);
       stats.rpc_execute();
     }
   }
+  YGM_VERIF_HOOK("hnr-", m_send_buffer_bytes, m_pending_isend_bytes, m_in_process_receive_queue);
   post_new_irecv(buffer);
   flush_to_capacity();
 }
@@ -915,7 +941,9 @@ inline bool comm::process_receive_queue() {
   m_in_process_receive_queue = true;
   bool received_to_return    = false;
 
+  YGM_VERIF_HOOK("prq+", m_enable_interrupts, m_send_queue.size(), m_pending_isend_bytes);
   if (!m_enable_interrupts) {
+    YGM_VERIF_HOOK("prq-", received_to_return, m_send_queue.size(), m_pending_isend_bytes);
     m_in_process_receive_queue = false;
     return received_to_return;
   }
@@ -937,6 +965,7 @@ inline bool comm::process_receive_queue() {
     }
     for (int i = 0; i < outcount; ++i) {
       if (twin_indices[i] == 0) {  // completed a iSend
+        YGM_VERIF_HOOK("sc", m_send_queue.front().buffer->size(), m_pending_isend_bytes, 0);
         m_pending_isend_bytes -= m_send_queue.front().buffer->size();
         m_send_queue.front().buffer->clear();
         m_free_send_buffers.push_back(m_send_queue.front().buffer);
@@ -955,6 +984,7 @@ inline bool comm::process_receive_queue() {
           MPI_Test(&(m_send_queue.front().request), &flag, MPI_STATUS_IGNORE));
       stats.isend_test();
       if (flag) {
+        YGM_VERIF_HOOK("sc", m_send_queue.front().buffer->size(), m_pending_isend_bytes, 0);
         m_pending_isend_bytes -= m_send_queue.front().buffer->size();
         m_send_queue.front().buffer->clear();
         m_free_send_buffers.push_back(m_send_queue.front().buffer);
@@ -965,6 +995,7 @@ inline bool comm::process_receive_queue() {
 
   received_to_return != local_process_incoming();
 
+  YGM_VERIF_HOOK("prq-", received_to_return, m_send_queue.size(), m_pending_isend_bytes);
   m_in_process_receive_queue = false;
   return received_to_return;
 }
